@@ -28,6 +28,7 @@ SInit(limit, respBuf) ==
     tracked  |-> {},       \* set of <<id, h>>: ground truth of what is in flight
     readIds  |-> {},       \* ids of requests read on this channel
     read     |-> NoRead,   \* the request read in this poll whose fate is not decided yet
+    staleCancel |-> FALSE, \* a cancellation naming no tracked request was read in this scenario
     relInPoll|-> FALSE,    \* a release (cancel, guard drop) was processed earlier in this channel poll
     relPend  |-> FALSE,    \* an application guard drop awaits the next channel poll
     f7poll   |-> FALSE,    \* a refusal explained by finding F7 already happened in this channel poll
@@ -80,7 +81,7 @@ SReadCancel(o, id) ==
   LET o0 == [o EXCEPT !.nextInPoll = TRUE] IN
   IF id \in TrackedIds(o)
     THEN LET h == HOf(o, id) IN [Untrack(EndInc(o0, h, "cancel"), id) EXCEPT !.relInPoll = TRUE]
-    ELSE o0
+    ELSE [o0 EXCEPT !.staleCancel = TRUE]
 
 SEofSeen(o) == [o EXCEPT !.eof = "seen", !.nextInPoll = TRUE]
 SEofPushed(o) == [o EXCEPT !.eof = IF @ = "none" THEN "pushed" ELSE @]
@@ -295,7 +296,10 @@ Unfinished(o) == {h \in DOMAIN o.inc : ~o.inc[h].done}
 (* executing it has finished (it does not linger, e.g. waiting to buffer a response nobody wants)           *)
 StoppedAtPoint(o, why) ==
   (AtPt(o) /\ ~o.panic) => \A h \in DOMAIN o.inc : (o.inc[h].ended = why /\ o.inc[h].polls > 0) => o.inc[h].exited
-Inv_C04(o) == BadOf(o, "C04") = {} /\ StoppedAtPoint(o, "cancel")
+(* "cancellations for unknown or finished requests have no effect": in particular they do not hold up what the peer sent after them *)
+StaleCancelHarmless(o) ==
+  (AtPt(o) /\ o.pt.alive /\ o.pt.writable /\ ~o.panic /\ ~o.f6 /\ o.staleCancel) => (o.pt.inq = 0 /\ o.eof # "pushed")
+Inv_C04(o) == BadOf(o, "C04") = {} /\ StoppedAtPoint(o, "cancel") /\ StaleCancelHarmless(o)
 Inv_C06(o) == BadOf(o, "C06") = {} /\ StoppedAtPoint(o, "expired")
 Inv_C08(o) == BadOf(o, "C08") = {}
 Inv_C12(o) == BadOf(o, "C12") = {}
